@@ -313,7 +313,12 @@ def oracle(cls, channel, fmt, fault, out, ureports, ob):
         for p in probs:
             v.append(("stdout", p))
         if oc == "user":
-            v.append(("F17", "the emitted report is not the id/start/end report (a report defined by the project was printed)"))
+            fch = {"json": "jb", "csv": "cb"}[fmt]
+            own = ureports != "-" and any(it[0] in "ps" and it[1] in fch for it in ureports.split(","))
+            if own:
+                v.append(("F17", "the emitted report is not the id/start/end report (a report defined by the project was printed)"))
+            else:
+                v.append(("columns", "the emitted report does not have the columns id, start, end"))
         elif oc != "auto":
             v.append(("stdout", "exit 0 but stdout is not a report (%s)" % oc))
         else:
@@ -477,5 +482,33 @@ def cli_conc(req):
         shutil.rmtree(root, ignore_errors=True)
 
 
+def cli_natural(req):
+    """faults that need no injection: a project file that is not valid UTF-8 (Latin-1 comment).
+    file channel: the text-mode read in create_auto_report_file fails (= fault point copyRead);
+    stdin channel: sys.stdin decodes with surrogateescape, writing the temp copy fails (= stdinWrite)."""
+    k = req["k"]
+    res = {}
+    for channel in ("file", "stdin"):
+        root = tempfile.mkdtemp(prefix="spverif-nat-", dir=SCRATCH)
+        try:
+            for d in ("in", "cwd", "tmp", "abs"):
+                os.makedirs(os.path.join(root, d))
+            data = base_project(k).encode("utf-8") + b"# caf\xe9 au lait\n"
+            in_path = os.path.join(root, "in", "latin%d.tjp" % k)
+            if channel == "file":
+                with open(in_path, "wb") as f:
+                    f.write(data)
+            before = listing(root)
+            r = subprocess.run(argv_for(channel, req.get("fmt", "json"), "-", in_path, True),
+                               input=(data if channel == "stdin" else b""), capture_output=True,
+                               cwd=os.path.join(root, "cwd"), env=child_env(os.path.join(root, "tmp")), timeout=RUN_TIMEOUT)
+            left, new = leftover_classes(before, listing(root))
+            res[channel] = {"line": "exit %d left %s" % (r.returncode, ",".join(left) or "-"), "new": new[:4],
+                            "stdout_bytes": len(r.stdout), "stderr": r.stderr[-200:].decode("utf-8", "replace")}
+        finally:
+            shutil.rmtree(root, ignore_errors=True)
+    return res
+
+
 OPS = {"cli": op_cli, "cliexits": op_cliexits}
-JOPS = {"cli_conc": cli_conc}
+JOPS = {"cli_conc": cli_conc, "cli_natural": cli_natural}
